@@ -17,6 +17,8 @@ GROUPS.append(G("pos_INCLUDE_lines", "harness/C20/h_as_include.c", "h_INCLUDE_li
                 functions=["ExpandINCLUDE_Core", "INCLUDE_Processor", "INCLUDE_Restorer", "GenerateProcessor"]))
 GROUPS.append(G("pos_GenerateProcessor", "harness/C20/h_as_include.c", "h_GenerateProcessor", enforce=[], link=["asmdef.c", "strcomp.c"], stubs=["stubs/gerr.c"], unwind=8, timeout=600, dfcc=False,
                 object_bits=12, defs=["-DSTRINGSIZE=64"], functions=["GenerateProcessor"]))
+GROUPS.append(G("pos_ReadLnCont", "harness/C13/h_strutil.c", "h_ReadLnCont", enforce=[], link=[], stubs=["stubs/gerr.c"], unwind=8, timeout=600, dfcc=False, drop_unused=True, object_bits=12,
+                defs=["-DVERIF_READLN"], functions=["ReadLnCont"], flags=["--slice-formula"], bounded="logical lines joined from at most 3 physical lines of 0..3 characters each (plus CR/LF, ^Z, continuation)"))
 TRUSTED_BASE = ["ghost output channels / exit monitor of h_asmerr.c", "argument-logging stubs of h_as_rept.c"]
 ASSUMPTIONS = ["announcing the numbers of the EXPECT machinery's own messages (2130, 2150, 2160) is excluded"]
 NOT_COVERED = ["GetErrorPos chain concatenation", "MACRO_Processor line counting", "INCLUDE_SearchCore (file search), ReadLnCont (oracle: number of physical lines read)", "ReadLnCont continuation lines", "column markers", "-gnuerrors formatting"]
